@@ -157,7 +157,7 @@ def strategy(pid):
         "kind": st.just("variant"), "what": st.sampled_from(KINDS), "cls": st.sampled_from(classes),
         "k": st.lists(st.integers(0, 14), min_size=3, max_size=3), "t": st.lists(st.integers(-9, 9), min_size=9, max_size=9),
         "us": st.lists(probes.U6, min_size=5, max_size=5), "p": probes.U6, "aux": st.lists(probes.U6, min_size=3, max_size=3),
-        "n": st.sampled_from([6, 70, 300, 1200])})
+        "n": st.sampled_from([6, 70, 300, 1200, 1200, 9000])})
 
 
 def cells(pid):
@@ -166,7 +166,7 @@ def cells(pid):
     for cn in CLASSES_BY_PROP[pid]:
         for what in KINDS:
             for kk in ([1, 7, 13], [4, 2, 10], [6, 3, 9], [0, 14, 5], [8, 11, 12]) if what.startswith("inttype") else ([1, 7, 13],):
-                for n in ((6, 70, 300, 1200) if what == "long" else (70,)):
+                for n in ((6, 70, 300, 1200, 9000) if what == "long" else (70,)):
                     yield {"kind": "variant", "what": what, "cls": cn, "k": kk, "t": [1, 2, 3, -4, 5, 0, 7, -2, 6], "us": us, "p": [0.25, -0.4, 0.6, 0.5, 0.3, -0.7],
                            "aux": aux, "n": n}
 
@@ -299,7 +299,7 @@ def check(c, case, pid):
                 c.fail("ctor/long", "%s built from %d values iterates over %d" % (cn, n, len(held)), n=n)
         except Exception as e:  # noqa
             c.fail("ctor/long", "iterating over a %s of %d values raised %r" % (cn, n, e), n=n)
-        for name, tags, f in cat:
+        for name, tags, f in (cat if n <= 2000 else []):          # beyond 2000 values only constructors and binary operators (cost)
             if name in ("prod", "X*Pm", "X*Pm'", "A", "S", "interp(P,s)", "I*a", "I*v", "SE3*X", "cross(vel)", "cross(force)"):
                 continue              # single-valued by documentation (inertia / pose times ONE spatial vector, cross of ONE pair)
             oX, _ = probes.outcome(f, X, P, aux)
@@ -319,6 +319,24 @@ def check(c, case, pid):
                 if not probes.same(e, e5, 1e-12):
                     c.fail("%s/long" % name, "%s.%s on %d values: element %d differs from the result for that value in a 5-valued object" % (cn, name, n, i), call=name, n=n, index=i)
                     break
+        # reductions over all values: the product of n values is the plain left-to-right matrix product
+        if n <= 2000 and cn in POSES and any(nm_ == "prod" and (pid in tg_ or pid == "C17") for nm_, tg_, _f in cat):
+            oP, _ = probes.outcome(lambda Z: Z.prod(), X)
+            if oP[0] != "ok":
+                c.fail("prod/long", "%s.prod() over %d values raised %s" % (cn, n, oP[1]), call="prod", n=n)
+            else:
+                ref_ = np.eye(np.asarray(vals[0]).shape[0])
+                tmax = 1.0
+                for i in range(n):
+                    ref_ = ref_ @ np.asarray(vals[i % 5], dtype=float)
+                    tmax = max(tmax, float(np.max(np.abs(ref_))))
+                got_ = oP[1]
+                arrs = got_[2] if isinstance(got_, tuple) and len(got_) == 3 and got_[0] == "obj" else None
+                if arrs is None or len(arrs) != 1 or np.asarray(arrs[0]).shape != ref_.shape:
+                    c.fail("prod/long", "%s.prod() over %d values returned %s" % (cn, n, probes._short(oP)), call="prod", n=n)
+                elif not np.all(np.abs(np.asarray(arrs[0], dtype=float) - ref_) <= 1e-9 * tmax * max(1.0, n / 100.0)):
+                    c.fail("prod/long", "%s.prod() over %d values differs from the left-to-right matrix product by %.3g" % (
+                        cn, n, float(np.max(np.abs(np.asarray(arrs[0], dtype=float) - ref_)))), call="prod", n=n)
         # binary, both long
         if cn in POSES + ["UnitQuaternion", "Quaternion"] or cn.startswith("Spatial"):
             Y = _mk(cn, [vals[(i + 2) % 5] for i in range(n)])
@@ -333,7 +351,7 @@ def check(c, case, pid):
                 if oL[0] != "ok":
                     c.fail("%s/long" % on, "%s %s on two %d-valued objects raised %s" % (cn, on, n, oL[1]), call=on, n=n)
                     continue
-                for i in (0, 3, 5, 64, 256, 1000, n - 1):
+                for i in (0, 3, 5, 64, 256, 1000, 4097, 8191, 8192, n - 1):
                     if i >= n:
                         continue
                     o1, _ = probes.outcome(g, singles[i % 5], singles[(i + 2) % 5])
